@@ -25,6 +25,19 @@ def run(ck: Checker):
     fifo.check_spsc(ck, 'C16-1d', m)
     fifo.check_fifo_class(ck, 'C16-1d', m)
     run_siblings(ck)
+    # C16-4: AsyncServer.call/stream = Server.call/stream: the async server's admission and gather code are
+    # instances of the same rules that are decided for the sync server under C02 / C04 / C06 / C07
+    from . import server
+
+    ck.rule('C16-4', 'AsyncServer is an instance of the server rules: record-before-send, non-recyclable ids, gather pairing and delivery (unwrap RemoteException, set_exception iff exception), re-test after wake-up, slot return, race-free resolution', minimum=10)
+    s = server.discover(ck.repo, 'AsyncServer')
+    server.check_record_before_send(ck, 'C16-4', s)
+    server.check_id_origin(ck, 'C16-4', s)
+    server.check_gather_pairing(ck, 'C16-4', s)
+    server.check_delivery(ck, 'C16-4', s)
+    server.check_retest(ck, 'C16-4', s)
+    server.check_slot_return(ck, 'C16-4', s)
+    server.check_race_free_resolution(ck, 'C16-4', s)
 
 
 # ======================================================================================
